@@ -1008,6 +1008,9 @@ class FG:
         # position of the function's final `ret`: normally last; sometimes in the middle so that insns
         # follow the (single) ret (inlining copies them in place when the callee has a non-top alloca)
         rpos = r.randrange(1, nblocks) if nblocks >= 2 and r.random() < self.opts.get('p_ret_middle', 0.15) else nblocks
+        p_cold = self.opts.get('p_cold', 0.0)
+        p_laddr_any = self.opts.get('p_laddr_any', 0.0)
+        cold = []
         for bi in range(nblocks):
             if bi == rpos:
                 self.emit('jmp', labs[bi])
@@ -1019,6 +1022,23 @@ class FG:
             self.emit('sub', R('fuel'), R('fuel'), Imm(1))
             self.emit('ble', lret, R('fuel'), Imm(0))
             self.straight(r.randrange(1, blen + 1))
+            if p_laddr_any and r.random() < p_laddr_any:
+                # address of an arbitrary block taken and never used: for the generator every such label
+                # is a possible jmpi target and its block is kept even when nothing jumps to it
+                if 'lu' not in [n for _, n in f.locals]: f.locals.append(('i64', 'lu'))
+                self.emit('laddr', R('lu'), r.choice(labs + [lret]))
+                self.p.features.add('laddr:unused')
+            if p_cold and r.random() < p_cold:
+                # detour through a stub placed after the function's last insn ("cold" code after the ret):
+                # clone_bbs copies the block at lr into the stub; with the unconditional jump the original
+                # block becomes unreachable
+                lc, lr = self.label(), self.label()
+                if r.random() < 0.5: self.emit('jmp', lc)
+                else: self.cond_branch(lc)
+                self.place(lr)
+                self.straight(r.randrange(1, blen + 1))
+                cold.append((lc, lr))
+                self.p.features.add('cfg:cold-detour')
             last = bi == nblocks - 1
             k = r.random()
             if k < 0.3:
@@ -1058,6 +1078,10 @@ class FG:
             self.ret_insn()
         else:
             self.emit('jmp', lret)
+        for lc, lr in cold:
+            self.place(lc)
+            self.straight(r.randrange(1, 4))
+            self.emit('jmp', lr)
         return f
 
 
